@@ -2,7 +2,7 @@
 
 A plan maps the number n of a command that enters the sub-environment (reset, step, a remote call,
 a remote attribute write — counted together, from 0, per worker) to what the sub-environment does:
-  ["normal"] | ["raise", code] | ["sleep"] | ["die"]
+  ["normal"] | ["raise", code] | ["sleep"] | ["die"] | ["delay", seconds]
 "sleep" blocks until the harness releases the worker (or MAX_SLEEP elapses / the harness is gone);
 "die" is a SIGKILL of the worker by itself. Everything the sub-environment does is logged in the
 shared control block so that the harness (a) can wait for quiescence instead of guessing with
@@ -114,6 +114,10 @@ class FaultEnv(ParallelEnv):
             c.set(j, F_DONE, n + 1)
             os.kill(os.getpid(), signal.SIGKILL)
             time.sleep(10)
+        if b[0] == "delay":                  # answers normally, but only after b[1] seconds of wall-clock time
+            time.sleep(float(b[1]))
+            c.set(j, F_KIND, K_NORMAL)
+            return n
         if b[0] == "sleep":
             ticket = c.get(j, F_SLEEPS)
             c.set(j, F_SLEEPS, ticket + 1)
